@@ -243,6 +243,8 @@ def summary_covers_children(ctx, o, ps: PassShape):
                 if not (isinstance(t, ast.Name) and match(f"{t.id}.{attr}", elt)):
                     continue
                 seq = _strip_seq(it)
+                if isinstance(seq, ast.BoolOp) and isinstance(seq.op, ast.Or):
+                    seq = _strip_seq(seq.values[0])     # `<subset> or <all>`: the subset is what is used whenever it is not empty
                 if match(f"{ps.task}.children", seq):
                     n += 1
                     o.site(ps.f, st, f"summary {attr}: over task.children")
